@@ -191,7 +191,17 @@ func copyChild(args []string) {
 			}
 			return true, ""
 		}
+		rootGone := false
+		ensureRoot := func() {
+			if fi, err := os.Lstat("/dstroot"); err != nil || !fi.IsDir() {
+				// the call removed (or replaced) the destination root itself: recorded, not fatal
+				rootGone = true
+				os.RemoveAll("/dstroot")
+				os.Mkdir("/dstroot", 0755)
+			}
+		}
 		ok, msg := run()
+		ensureRoot()
 		after, err := disk.Snapshot("/dstroot", false)
 		if err != nil {
 			die(err)
@@ -205,6 +215,7 @@ func copyChild(args []string) {
 		after2 := after
 		if ok && cc.Kind != "contain" {
 			ok2, _ = run()
+			ensureRoot()
 			after2, err = disk.Snapshot("/dstroot", false)
 			if err != nil {
 				die(err)
@@ -239,8 +250,8 @@ func copyChild(args []string) {
 		}
 		ev := vt.Ev{"ev": "Copy", "case": cc.Case, "kind": cc.Kind, "origin": cc.Origin, "src": srcSnap.Ev(), "srcTop": srcTop,
 			"before": before.Ev(), "after": after.Ev(), "ok": ok, "err": msg, "notes": notes1,
-			"second":        vt.Ev{"ok": ok2, "after": after2.Ev()},
-			"outsideBefore": ob, "outsideAfter": oa, "secrets": []string{model.ContentID([]byte(secretA)), model.ContentID([]byte(secretB))},
+			"second":      vt.Ev{"ok": ok2, "after": after2.Ev()},
+			"dstRootGone": rootGone, "outsideBefore": ob, "outsideAfter": oa, "secrets": []string{model.ContentID([]byte(secretA)), model.ContentID([]byte(secretB))},
 			"req": vt.Ev{"sp": sp, "dp": splitArg(cc.DstArg), "slash": strings.HasSuffix(cc.DstArg, "/") && strings.Trim(cc.DstArg, "/") != "",
 				"contents": cc.Contents, "replace": cc.Replace, "uid": cc.Uid, "gid": cc.Gid, "mode": cc.Mode, "sym": cc.Sym, "utime": utimeStr, "wild": wild},
 			"filter": vt.Ev{"on": false}, "input": vt.Opaque(cc)}
